@@ -27,8 +27,10 @@ CHECK = {
              'external block only when no wrapper views it; for the sole user of a NULL wrapper "handed back NULL" and "refused" '
              'are both accepted and told apart by the allocator events); unsatisfiable or failed allocations must leave size 0 / data NULL. '
              'A case is distinct by the canonical signature of the object->(buffer,off,len) map with buffer kind/nm/sz and '
-             'non-trivial when >= 2 objects are non-empty or some view is partial.'),
-    'assumptions': ['element sizes >= 1; external buffers are harness blocks of exactly nm*sz bytes, freed by the harness only after a successful release or after the last referrer went away',
+             'non-trivial when >= 2 objects are non-empty or some view is partial.'
+             ' Plus (harness/huge.c, the library as shipped without sanitizer) untouched library allocations of 2^33 one-byte, 2^30+9 eight-byte, 2^32+2^31+11 one-byte and 3*2^32/12 twelve-byte elements and external (never dereferenced) buffers of 2^40, 2^44 and 2^62 elements: at(i) == base+(off+i)*elem for indices around 2^31/elem and 2^32/elem, at(size) and at(size+2^32) abort, slices starting above 2^32, slice of slice in place, unslice, and the bad slices end < beg (beg above 2^32, end small), past the end, past the end of the buffer from a view.'),
+    'assumptions': ['the huge scenarios need 3-12 GiB of free memory; one that the machine cannot back (MemAvailable too small, or the C library refuses the request) is skipped and counted (huge.skipped.*), nothing is concluded from it',
+                    'element sizes >= 1; external buffers are harness blocks of exactly nm*sz bytes, freed by the harness only after a successful release or after the last referrer went away',
                     'array objects are never copied bitwise (individually allocated; cstl_array_init and CSTL_ARRAY_INITIALIZER alternate)',
                     'two separate set() wrappers over one caller-owned block are legal client behaviour (the library cannot know); a second wrapper never describes more bytes than the block has',
                     'requests above the 64 MiB allocator cap count as allocations that fail',
@@ -42,6 +44,8 @@ CHECK = {
          'cflags': ['--param', 'asan-use-after-return=0'],
          # typical on 16 idle cores: quick ~6 s, thorough ~60-90 s per configuration; generous for a loaded machine
          'watchdog': {'quick': 900, 'thorough': 7200}},
+        # objects of 2^31 .. 2^33 elements, the library as shipped (no sanitizer), own oracles (harness/huge.c)
+        {'harness': 'huge', 'sources': ['harness/huge.c'], 'mode': 'array', 'configs': both(['rel-huge']), 'workers': 3},
     ],
 }
 
